@@ -260,6 +260,10 @@ func runC07(c *Ctx, r *Rec) {
 			}
 		}
 	}
+	// the sorter that orders map keys keeps nothing between its two uses in one ranking
+	if srt, err := c.impl("agent", "SorterLike"); err == nil && srt != nil {
+		checkSorterKeepsNothing(c, r, "D5-sorter-keeps-nothing", srt)
+	}
 	// ---- D5 depth balance
 	steppers7 := depthSteppers(c, info, cr.ms, cr.depthF)
 	for _, name := range sortedKeys(cr.ms) {
